@@ -34,7 +34,19 @@ theorem cmdOfFrame_cmdFrame (c : List Bytes) : cmdOfFrame (cmdFrame c) = some c 
 
 theorem serCmd_cons (c : List Bytes) : ∃ t, serCmd c = 42 :: t := by
   unfold serCmd cmdFrame
-  exact ⟨_, by simp [ser]⟩
+  rw [ser]
+  exact ⟨_, rfl⟩
+
+theorem depthList_bulks (c : List Bytes) : depthList (c.map .bulk) ≤ 1 := by
+  induction c with
+  | nil => simp [depthList]
+  | cons a t ih => simp only [List.map_cons, depthList, Frame.depth]; omega
+
+theorem depth_cmdFrame (c : List Bytes) : (cmdFrame c).depth ≤ maxNesting + 1 := by
+  unfold cmdFrame
+  have := depthList_bulks c
+  simp only [Frame.depth, maxNesting]
+  omega
 
 theorem serCmd_length_pos (c : List Bytes) : 0 < (serCmd c).length := by
   obtain ⟨t, ht⟩ := serCmd_cons c
@@ -66,7 +78,7 @@ theorem readLogF_step (n : Nat) (c : List Bytes) (hc : cmdWf c) (rest : Bytes) :
     readLogF (n + 1) (serCmd c ++ rest) = (c :: (readLogF n rest).1, (readLogF n rest).2) := by
   obtain ⟨t, ht⟩ := serCmd_cons c
   have hne : (serCmd c ++ rest).isEmpty = false := by simp [ht]
-  have hp : parseBytes (serCmd c ++ rest) = .ok (cmdFrame c) rest := parseBytes_ser (cmdFrame c) (wf_cmdFrame c hc) rest
+  have hp : parseBytes (serCmd c ++ rest) = .ok (cmdFrame c) rest := parseBytes_ser (cmdFrame c) (wf_cmdFrame c hc) (depth_cmdFrame c) rest
   simp only [readLogF, hne, hp, cmdOfFrame_cmdFrame]
   simp
 
@@ -98,13 +110,13 @@ theorem readLog_fileOf (cs : List (List Bytes)) (hw : ∀ c ∈ cs, cmdWf c) : r
   simp [readLogF]
 
 /-- every proper, non-empty prefix of a serialised frame asks for more data -/
-theorem proper_prefix_needs (f : Frame) (hw : wf f = true) (p e : Bytes) (hpe : p ++ e = ser f) (he : e ≠ []) :
+theorem proper_prefix_needs (f : Frame) (hw : wf f = true) (hd : f.depth ≤ maxNesting + 1) (p e : Bytes) (hpe : p ++ e = ser f) (he : e ≠ []) :
     parseBytes p = .need := by
   by_cases h : parseBytes p = .need
   · exact h
   · have h1 := parseBytes_append p e h
     have h2 : parseBytes (ser f) = .ok f [] := by
-      have := parseBytes_ser f hw []
+      have := parseBytes_ser f hw hd []
       simpa using this
     rw [hpe, h2] at h1
     cases hp : parseBytes p with
@@ -128,7 +140,7 @@ theorem readLog_torn (cs : List (List Bytes)) (hw : ∀ c ∈ cs, cmdWf c) (c : 
   rw [this]
   have h2 : (fileOf cs ++ p).length + 1 - cs.length = ((fileOf cs ++ p).length - cs.length) + 1 := by simp; omega
   rw [h2]
-  have hneed := proper_prefix_needs (cmdFrame c) (wf_cmdFrame c hc) p e hpe he
+  have hneed := proper_prefix_needs (cmdFrame c) (wf_cmdFrame c hc) (depth_cmdFrame c) p e hpe he
   have hne : p.isEmpty = false := by cases p <;> simp at hp ⊢
   simp [readLogF, hne, hneed]
 
@@ -140,7 +152,7 @@ theorem dropWhile_head42 (q : Nat → Bool) (hq : q 42 = false) (t : Bytes) : (4
 theorem parserParse_cmd (c : List Bytes) (hc : cmdWf c) (rest : Bytes) :
     parserParse true (serCmd c ++ rest) = (.frame (cmdFrame c), rest.dropWhile isNl) := by
   obtain ⟨t, ht⟩ := serCmd_cons c
-  have hp : parseBytes (serCmd c ++ rest) = .ok (cmdFrame c) rest := parseBytes_ser (cmdFrame c) (wf_cmdFrame c hc) rest
+  have hp : parseBytes (serCmd c ++ rest) = .ok (cmdFrame c) rest := parseBytes_ser (cmdFrame c) (wf_cmdFrame c hc) (depth_cmdFrame c) rest
   unfold parserParse
   have hws : (serCmd c ++ rest).dropWhile isWs = serCmd c ++ rest := by
     rw [ht]; exact dropWhile_head42 isWs (by decide) _
@@ -196,48 +208,20 @@ theorem runWhole_fileOf (cs : List (List Bytes)) (hw : ∀ c ∈ cs, cmdWf c) :
 
 /-! ## the bytes the code appends are the serialisation of `log (Cfg.code w)` -/
 
-theorem logFrom_code_st (w : List String) (st st' : LogSt) (h : List Ev) :
-    logFrom (Cfg.code w) st h = logFrom (Cfg.code w) st' h := by
-  induction h generalizing st st' with
-  | nil => rfl
-  | cons ev t ih =>
-    cases ev with
-    | cmd ve now obs raw =>
-      simp only [logFrom, logEv, Cfg.code, selFor, Bool.false_eq_true, false_and, if_false, List.nil_append]
-      by_cases hw : isWrite w (nameOf raw) = true
-      · simp only [hw, if_true]
-        congr 1
-        exact ih _ _
-      · simp only [hw, Bool.false_eq_true, if_false, List.nil_append]
-        exact ih _ _
-    | wake db now left key =>
-      simp only [logFrom, logEv, Cfg.code, Bool.false_eq_true, if_false, List.nil_append]
-      exact ih _ _
-
-theorem fileAfter_eq (w : List String) (file : Bytes) (st : LogSt) (h : List Ev) :
-    Code.fileAfter w file h = file ++ fileOf (logFrom (Cfg.code w) st h) := by
-  induction h generalizing file st with
-  | nil => simp [Code.fileAfter, logFrom, fileOf]
-  | cons ev t ih =>
-    cases ev with
-    | cmd ve now obs raw =>
-      simp only [Code.fileAfter, Code.aofAppend, logFrom, logEv, Cfg.code, selFor, Bool.false_eq_true, false_and, if_false,
-        List.nil_append]
-      by_cases hw : isWrite w (nameOf raw) = true
-      · simp only [hw, if_true]
-        rw [ih (file ++ serCmd raw) _]
-        simp [fileOf, fileOf_append]
-      · simp only [hw, Bool.false_eq_true, if_false, List.nil_append]
-        exact ih file _
-    | wake db now left key =>
-      simp only [Code.fileAfter, logFrom, logEv, Cfg.code, Bool.false_eq_true, if_false, List.nil_append]
-      exact ih file _
-
 /-- the commands of a history that reached `process_normal_command`, in order -/
 def rawsOf : List Ev → List (List Bytes)
   | [] => []
   | .cmd _ _ _ raw :: h => raw :: rawsOf h
   | .wake _ _ _ _ :: h => rawsOf h
+
+theorem logEv_code_cmd (w : List String) (st : LogSt) (ve : Bool) (now : Nat) (obs : Option (List Bytes)) (raw : List Bytes) :
+    (logEv (Cfg.code w) st (.cmd ve now obs raw)).1 = if isWrite w (nameOf raw) = true then [raw] else [] := by
+  simp only [logEv, Cfg.code, selFor, Bool.false_eq_true, false_and, if_false, List.nil_append]
+  split <;> rfl
+
+theorem logEv_code_wake (w : List String) (st : LogSt) (db now : Nat) (left : Bool) (key : Bytes) :
+    (logEv (Cfg.code w) st (.wake db now left key)).1 = [] := by
+  simp [logEv, Cfg.code]
 
 /-- the code's log is the sub-list of those commands whose name is in the table: each once, in execution order -/
 theorem log_code_eq_filter (w : List String) (st : LogSt) (h : List Ev) :
@@ -247,15 +231,28 @@ theorem log_code_eq_filter (w : List String) (st : LogSt) (h : List Ev) :
   | cons ev t ih =>
     cases ev with
     | cmd ve now obs raw =>
-      simp only [logFrom, logEv, Cfg.code, selFor, Bool.false_eq_true, false_and, if_false, List.nil_append, rawsOf,
-        List.filter_cons]
-      by_cases hw : isWrite w (nameOf raw) = true
-      · simp only [hw, if_true]
-        simp [ih]
-      · simp only [hw, Bool.false_eq_true, if_false, List.nil_append]
-        exact ih _
+      rw [logFrom, logEv_code_cmd, ih, rawsOf, List.filter_cons]
+      split <;> simp
     | wake db now left key =>
-      simp only [logFrom, logEv, Cfg.code, Bool.false_eq_true, if_false, List.nil_append, rawsOf]
-      exact ih _
+      rw [logFrom, logEv_code_wake, ih, rawsOf]
+      simp
+
+theorem fileAfter_eq_filter (w : List String) (file : Bytes) (h : List Ev) :
+    Code.fileAfter w file h = file ++ fileOf ((rawsOf h).filter fun raw => isWrite w (nameOf raw)) := by
+  induction h generalizing file with
+  | nil => simp [Code.fileAfter, rawsOf, fileOf]
+  | cons ev t ih =>
+    cases ev with
+    | cmd ve now obs raw =>
+      rw [Code.fileAfter, ih, rawsOf, List.filter_cons, Code.aofAppend]
+      split <;> simp [fileOf]
+    | wake db now left key =>
+      rw [Code.fileAfter, ih, rawsOf]
+
+/-- the file after a history = the serialisation of the log -/
+theorem fileAfter_eq (w : List String) (h : List Ev) :
+    Code.fileAfter w [] h = fileOf (log (Cfg.code w) h) := by
+  rw [fileAfter_eq_filter, log, log_code_eq_filter]
+  simp
 
 end Ferrous.Aof
